@@ -14,7 +14,7 @@ PROPS = ('C12',)
 REAL = ['s3transfer.utils.SlidingWindowSemaphore', 's3transfer.utils.TaskSemaphore',
         'stdlib threading.Condition/Semaphore source (on simulated _thread)']
 STUB = ['OS scheduler (kernel)', 'callers: seeded operation programs']
-RULE = ('one evaluation = one seeded concurrent program (1-3 threads x 3-8 semaphore '
+RULE = ('one evaluation = one seeded concurrent program over 1-2 semaphores (1-3 threads x 3-8 semaphore '
         'operations over <=3 tags, capacity 1-3) run under a seeded schedule and checked '
         'against the reference model by Wing-Gong search; distinct = distinct trace digest; '
         'non-trivial = >=2 threads were runnable at some point AND (some acquire blocked OR '
@@ -50,7 +50,14 @@ def generate(prop, seed):
             else:
                 p.append(['count'])
         progs.append(p)
-    sc = {'kind': kind, 'cap': cap, 'programs': progs, 'tags': tags,
+    nsems = 2 if rng.random() < 0.25 else 1
+    if nsems == 2:
+        # two independent semaphores in one process (two managers): nothing
+        # done to one may help or harm the other; every op names its semaphore
+        for p in progs:
+            for op in p:
+                op.append(rng.randrange(2))
+    sc = {'kind': kind, 'cap': cap, 'programs': progs, 'tags': tags, 'nsems': nsems,
           'drain': rng.choice(['low', 'high', 'any']),
           'strategy': gen_strategy(rng, 120), 'sched_seed': rng.randrange(1 << 62),
           'seed': seed, 'prop': prop}
@@ -129,11 +136,15 @@ def execute(sc, choices=None, lenient=False):
     sim = kernel.Sim(chooser, max_steps=20000)
     kind = sc['kind']
     cap = sc['cap']
+    nsems = sc.get('nsems', 1)
     hist = []
-    pool = []          # tokens held: (tag, token)
+    pool = []          # tokens held: (semaphore index, tag, token)
     violations = []
     info = {'blocked': 0, 'ooo': 0, 'rejected': 0}
     finished = []
+    sems = []
+    waiting = {}
+    stuck_early = []
 
     def record(op, args, fn):
         h = {'inv': sim.stamp(), 'ret': None, 'op': op, 'args': args,
@@ -149,53 +160,65 @@ def execute(sc, choices=None, lenient=False):
         h['ret'] = sim.stamp()
         return h
 
-    def pick(policy, idx):
-        if not pool:
+    def pick(policy, idx, si=None):
+        cand = [x for x in pool if si is None or x[0] == si]
+        if not cand:
             return None
         if policy == 'any':
-            return pool.pop(idx % len(pool))
-        # low / high within a tag chosen by idx
-        tags = sorted({t for t, _ in pool})
-        tag = tags[idx % len(tags)]
-        toks = sorted(k for t, k in pool if t == tag)
+            x = cand[idx % len(cand)]
+            pool.remove(x)
+            return x
+        # low / high within a (semaphore, tag) chosen by idx
+        groups = sorted({(s, t) for s, t, _ in cand})
+        s, tag = groups[idx % len(groups)]
+        toks = sorted(k for s2, t, k in cand if (s2, t) == (s, tag))
         tok = toks[0] if policy == 'low' else toks[-1]
-        pool.remove((tag, tok))
-        return (tag, tok)
+        pool.remove((s, tag, tok))
+        return (s, tag, tok)
+
+    def release(x):
+        si, tag, tok = x
+        sem = sems[si]
+        record('rel', (si, tag, tok if kind == 'sliding' else None),
+               lambda: sem.release(tag, tok))
 
     def main():
-        sem = SlidingWindowSemaphore(cap) if kind == 'sliding' else TaskSemaphore(cap)
+        for _ in range(nsems):
+            sems.append(SlidingWindowSemaphore(cap) if kind == 'sliding' else TaskSemaphore(cap))
 
         def worker(prog, wi):
             for op in prog:
+                si = op[-1] if nsems == 2 else 0
+                sem = sems[si]
                 if op[0] == 'acq':
                     tag, blocking = op[1], op[2]
-                    steps0 = sim.steps
-                    h = record('acq', (tag, blocking),
+                    waiting[wi] = si
+                    h = record('acq', (si, tag, blocking),
                                lambda: sem.acquire(tag, blocking))
+                    waiting.pop(wi, None)
                     if h['res'][0] == 'ok':
-                        pool.append((tag, h['res'][1] if kind == 'sliding' else len(hist)))
+                        pool.append((si, tag, h['res'][1] if kind == 'sliding' else len(hist)))
                 elif op[0] == 'rel':
-                    x = pick(op[1], op[2])
+                    x = pick(op[1], op[2], si)
                     if x is None:
                         continue
-                    tag, tok = x
+                    _, tag, tok = x
                     if kind == 'sliding':
-                        lows = [k for t, k in pool if t == tag and k < tok]
+                        lows = [k for s2, t, k in pool if s2 == si and t == tag and k < tok]
                         if lows:
                             info['ooo'] += 1
-                    record('rel', (tag, tok if kind == 'sliding' else None),
-                           lambda: sem.release(tag, tok))
+                    release(x)
                 elif op[0] == 'rel_unknown_tag':
-                    h = record('rel', (op[1], 0), lambda: sem.release(op[1], 0))
+                    record('rel', (si, op[1], 0), lambda: sem.release(op[1], 0))
                     info['rejected'] += 1
                 elif op[0] == 'rel_never_issued':
                     tag = op[1]
                     # a token that cannot have been issued: far above any next
                     tok = 1000 + op[2]
-                    h = record('rel', (tag, tok), lambda: sem.release(tag, tok))
+                    record('rel', (si, tag, tok), lambda: sem.release(tag, tok))
                     info['rejected'] += 1
                 elif op[0] == 'count' and kind == 'sliding':
-                    record('count', (), sem.current_count)
+                    record('count', (si,), sem.current_count)
             finished.append(wi)
 
         threads = [th.Thread(target=worker, args=(p, i))
@@ -210,35 +233,46 @@ def execute(sc, choices=None, lenient=False):
             sim.wait_until_step(10 ** 9)      # returns when nothing else can run
             if len(finished) == len(threads):
                 break
+            # quiescent: whoever is still inside acquire() of a semaphore none
+            # of whose tokens is held any more has lost its wake-up (semaphores
+            # are independent: what happens to another one must not matter)
+            lost = [wi for wi, si in sorted(waiting.items())
+                    if not any(x[0] == si for x in pool)]
+            if lost and pool:
+                violations.append(['C12', 'acquirer-blocked-forever',
+                                   '%d thread(s) blocked in acquire of a semaphore all of whose '
+                                   'issued tokens have been released (tokens of another '
+                                   'semaphore are still held)' % len(lost), {}])
+                stuck_early.append(1)
+                break
             if not pool:
                 break
             info['blocked'] += 1
             x = pick(drain, k)
             k += 1
-            tag, tok = x
-            record('rel', (tag, tok if kind == 'sliding' else None),
-                   lambda: sem.release(tag, tok))
+            release(x)
         stuck = len(threads) - len(finished)
-        if stuck:
+        if stuck and not stuck_early:
             violations.append(['C12', 'acquirer-blocked-forever',
                                '%d thread(s) still blocked in acquire although every '
                                'issued token has been released' % stuck, {}])
+            return
+        if stuck_early:
             return
         for t in threads:
             t.join()
         # release whatever is still held, then capacity must be back
         while pool:
-            tag, tok = pick('low', 0)
-            record('rel', (tag, tok if kind == 'sliding' else None),
-                   lambda: sem.release(tag, tok))
-        if kind == 'sliding':
-            c = sem.current_count()
-        else:
-            c = sem._semaphore._value
-        if c != cap:
-            violations.append(['C12', 'capacity-not-restored',
-                               'capacity %d after all tokens were released, configured %d'
-                               % (c, cap), {}])
+            release(pick('low', 0))
+        for si, sem in enumerate(sems):
+            if kind == 'sliding':
+                c = sem.current_count()
+            else:
+                c = sem._semaphore._value
+            if c != cap:
+                violations.append(['C12', 'capacity-not-restored',
+                                   'capacity %d after all tokens were released, configured %d'
+                                   % (c, cap), {}])
 
     sim.run(main)
     simstd.reset_between_runs()
@@ -260,16 +294,25 @@ def execute(sc, choices=None, lenient=False):
     lin_nodes = 0
     if not harness:
         if kind == 'sliding':
-            init = (cap, ())
-            step = _model_step(kind)
+            init1 = (cap, ())
+            step1 = _model_step(kind)
         else:
-            init = cap
-            step = _task_step
+            init1 = cap
+            step1 = _task_step
+        init = tuple(init1 for _ in range(nsems))
+
+        def step(state, op, args):
+            si = args[0]
+            r = step1(state[si], op, tuple(args[1:]))
+            if r is None:
+                return None
+            new, res = r
+            return state[:si] + (new,) + state[si + 1:], res
         H = [dict(h) for h in hist]
         if kind != 'sliding':
             for h in H:
                 if h['op'] == 'rel':
-                    h['args'] = (h['args'][0], None)
+                    h['args'] = (h['args'][0], h['args'][1], None)
         try:
             ok, order, lin_nodes = linearizable(H, init, step)
         except RuntimeError as e:
@@ -300,7 +343,8 @@ def _fmt(hist):
 
 
 def sample_of(sc, res):
-    return {'kind': sc['kind'], 'capacity': sc['cap'], 'programs': sc['programs'],
+    return {'kind': sc['kind'], 'capacity': sc['cap'], 'semaphores': sc.get('nsems', 1),
+            'programs': sc['programs'],
             'drain': sc['drain'], 'strategy': sc['strategy'],
             'history': res['history'][:30], 'first_choices': res['trace'][:40]}
 
